@@ -413,7 +413,7 @@ func c15Run(r *vkit.Run) {
 		fn()
 		r.NonTrivial()
 	})
-	r.Note("bounds", fmt.Sprintf("0..%d containers x 3 entry-count patterns x 3 timestamp patterns (distinct interleaved, all equal, reversed) x 21 message offsets x up to 3 stream rotations x 8 option combinations; plus all results of 2 streams x <=2 entries over 2 timestamps x 21 messages (1/%d lattice on the second stream) in 4 stream-identity variants; every byte value 0..255 alone, doubled and inside a message; end to end (argv -> fake daemon -> printed bytes): 1-3 containers x 3 timestamp patterns x 8 message offsets x 20 spellings of the --timestamp/-t, --container/-c, --color flags incl. their defaults, and four kinds of result without entries", maxN, step))
+	r.Note("bounds", fmt.Sprintf("0..%d containers x 3 entry-count patterns x 3 timestamp patterns (distinct interleaved, all equal, reversed) x 21 message offsets x up to 3 stream rotations x 8 option combinations; plus all results of 2 streams x <=2 entries over 2 timestamps x 21 messages (1/%d lattice on the second stream) in 4 stream-identity variants; every byte value 0..255 alone, doubled and inside a message; end to end (argv -> fake daemon -> printed bytes): 1-3 containers x 4 timestamp patterns (one going back in time inside a container) x 10 message offsets (two of 16 KiB and more without a line break) x 20 spellings of the --timestamp/-t, --container/-c, --color flags incl. their defaults, and four kinds of result without entries", maxN, step))
 }
 
 // ---- end to end: the command itself, from argv over a fake daemon to the printed bytes ----
@@ -512,7 +512,9 @@ func c15E2ECheck(r *vkit.Run, in c15E2EInput) {
 
 func c15E2ERun(r *vkit.Run, one func(fn func())) {
 	base := int64(1700000000) * 1e9
-	msgs := []string{"m", "m\n", "m\r\n", "", "a\nb", " m ", "\xffm\xfe", "100%\n\n"}
+	msgs := []string{"m", "m\n", "m\r\n", "", "a\nb", " m ", "\xffm\xfe", "100%\n\n",
+		// messages as long as the daemon's own line buffer and longer, without a line break at the end
+		strings.Repeat("L", 16384), strings.Repeat("M", 20000) + " end"}
 	type flagForm struct {
 		args       []string
 		ts, ct, co bool
@@ -529,7 +531,7 @@ func c15E2ERun(r *vkit.Run, one func(fn func())) {
 	forms = append(forms, flagForm{[]string{"--color=false"}, true, true, false}, flagForm{[]string{"--color=true", "-t=false"}, false, true, true},
 		flagForm{[]string{"--color=false", "-c=false"}, true, false, false}, flagForm{[]string{"--color=false", "-t", "-c"}, true, true, false})
 	for n := 1; n <= 3; n++ {
-		for tsPat := 0; tsPat < 3; tsPat++ {
+		for tsPat := 0; tsPat < 4; tsPat++ {
 			for mo := range msgs {
 				var logs []c15Stream
 				for i := 0; i < n; i++ {
@@ -543,6 +545,8 @@ func c15E2ERun(r *vkit.Run, one func(fn func())) {
 							ts = base + int64(j) // ties across containers
 						case 2:
 							ts = base + int64((n-i)*4+j)
+						case 3: // a container whose own log goes back in time
+							ts = base + int64(i*4+(1-j))*1000
 						}
 						s.Entries = append(s.Entries, c15Entry{TS: ts, Msg: msgs[(mo+i+j)%len(msgs)]})
 					}
